@@ -5,3 +5,22 @@ chk("C18","poolsim","exploration",
 chk("C19","poolsim","exploration",
  "Same runs as C18 with a conservation ledger of every admitted transaction checked after every step, the pending-work and pending-nonce reports compared with the model, and a drain-to-empty continuation at the end of every run.",
  PN, "deterministic simulation: seeded op/fault sequences under a fake clock vs conservation model + bounded drain continuation", "DESIGN.md §5 C18/C19")
+CN="The block order is given (trivial sequencer); SimKV stands in for leveldb; goroutine interleavings inside the executor and Go map orders are sampled natively per replica rather than PRNG-controlled (a divergence depending on them is detected statistically, its replay re-samples); oracles are written from the statement and read acceptance from receipts; sampling, not proof."
+chk("C01","chainsim","exploration",
+ "Differential seeded search: 3-4 independent replicas of the real ledger+executor+contracts differing in proof-verification mode, cache sizes and stop/reopen points execute the same seeded block stream; every block's hash, roots, receipts, delivery metadata and state store are compared byte for byte.",
+ CN, "deterministic simulation: R replicas with per-replica perturbation (restarts, caches, proof mode) on one seeded block stream, byte-wise differential oracle", "DESIGN.md §5 C01")
+chk("C02","chainsim","exploration",
+ "Seeded IBTP traffic (valid, duplicate, skipped, zero, huge, old indices; wrong senders; invalid proofs; poor senders failing at the fee stage) on the real node; history oracle over receipts plus counters read through the interchain query on both sides, delivery-set membership and a twin replica for 'rejected changes nothing'.",
+ CN, "deterministic simulation: seeded traffic + history oracle + twin-replica no-effect diff", "DESIGN.md §5 C02")
+chk("C04","chainsim","exploration",
+ "Seeded one-to-one traffic with receipts of all types and timeouts around expiry; a reference status machine from the statement folded over accepted events and heights, compared with GetStatus after every block.",
+ CN, "deterministic simulation: seeded histories vs reference status machine", "DESIGN.md §5 C04")
+chk("C06","chainsim","exploration",
+ "Seeded traffic with T in {0,1,2,3,5,2^62,-1} and receipts before/in/after the expiry block; per-block timeout notification sets and statuses compared with a reference expiry model.",
+ CN, "deterministic simulation: seeded histories vs reference expiry model", "DESIGN.md §5 C06")
+chk("C07","chainsim","exploration",
+ "Twin-replica metamorphic check: for each block one FAILED transaction is replaced on a twin by an empty transaction of the same sender and nonce; state stores must agree except for the sender's and admins' balances (exact fee difference), later receipts and delivery sets must agree; the twin is re-synchronised through the executor's rollback path.",
+ CN+" View-execution clause: covered by the view calls the oracles issue after every block (state store compared before/after in C17's check).", "deterministic simulation: twin replica metamorphic diff over seeded block streams", "DESIGN.md §5 C07")
+chk("C14","chainsim","exploration",
+ "Seeded transfer-heavy block streams over all amount classes, gas prices and admin counts; sum of balances from the raw state store after every block, per-transfer and fee-split accounting on single-transaction blocks.",
+ CN, "deterministic simulation: seeded block streams + conservation oracle over the state store", "DESIGN.md §5 C14")
